@@ -108,7 +108,7 @@ struct Attrs : Profile {
     {
         return {"replace", "replace-type-change", "large-attr", "prefix-names", "dim-attr", "dimscale", "cal", "range", "datastrs",
                 "gr-attr", "vs-attr", "vsfield-attr", "vg-attr", "restart", "restart-write", "dim-renamed-with-metadata", "dimscale-retype-refused",
-                "dimscale-retype-accepted", "dimname-prefix-family", "dimname-word-permutation-pair", "shared-dimension", "unnamed-dimension-in-later-session"};
+                "dimscale-retype-accepted", "dimname-prefix-family", "dimname-word-permutation-pair", "shared-dimension", "shared-dimension-first", "unnamed-dimension-in-later-session"};
     }
 
     Plan generate(Rng &rng, bool thorough, uint64_t) override
@@ -573,7 +573,17 @@ struct Attrs : Profile {
         open_sd(s);
         if (s.fk_stage == 0) {
             int32 da[2] = {3, 4}, db[1] = {3};
-            int32 a = SDcreate(s.sd, "fkA", DFNT_INT16, 2, da), b = SDcreate(s.sd, "fkB", DFNT_INT16, 1, db);
+            // (either dataset may come first: the unnamed dimension then sits before or behind the shared one in the file's table)
+            int32 a = FAIL, b = FAIL;
+            if (s.uniq % 2) {
+                b = SDcreate(s.sd, "fkB", DFNT_INT16, 1, db);
+                a = SDcreate(s.sd, "fkA", DFNT_INT16, 2, da);
+                ctx.probe("shared-dimension-first");
+            }
+            else {
+                a = SDcreate(s.sd, "fkA", DFNT_INT16, 2, da);
+                b = SDcreate(s.sd, "fkB", DFNT_INT16, 1, db);
+            }
             int32 v = 1234;
             if (a == FAIL || b == FAIL || SDsetdimname(SDgetdimid(a, 0), "fk_shared") == FAIL || SDsetdimname(SDgetdimid(b, 0), "fk_shared") == FAIL ||
                 SDsetattr(SDgetdimid(a, 1), "fkA_attr", DFNT_INT32, 1, &v) == FAIL || SDendaccess(a) == FAIL || SDendaccess(b) == FAIL)
